@@ -1,6 +1,8 @@
 ---------------------------- MODULE MerkleCache ----------------------------
-(* State machine of a MerkleCache over a static source of N hashes: initialise once,    *)
-(* then extend (by querying at a length) and truncate in any order.  Checked:            *)
+(* State machine of a MerkleCache over a source of N hashes: initialise once, then       *)
+(* extend (by querying at a length) and truncate in any order; a truncation to n may be   *)
+(* followed by the source changing beyond n (what a reorganisation does to the header     *)
+(* chain: backup_fs truncates to the new height + 1, later blocks differ).  Checked:       *)
 (*   PureOK   the code's branch_and_root agrees with the positional definition for every *)
 (*            list length <= N, index, padding and both formats;                         *)
 (*   CacheOK  in every reachable cache state every query (length, index, format) answers *)
@@ -9,33 +11,38 @@
 (* hides the path) for replay on the real class.                                         *)
 EXTENDS Merkle, Json
 
-CONSTANTS N, MaxOps, Export
-VARIABLES cache, inited, nops, hist
-vars == <<cache, inited, nops, hist>>
-View == <<cache, inited>>
+CONSTANTS N, MaxOps, MaxGen, Export
+VARIABLES cache, inited, nops, hist, src, gen
+vars == <<cache, inited, nops, hist, src, gen>>
+View == <<cache, inited, src>>
 
-Src == Leaves(N)
+Src == src
 Nil == [len |-> 0, dh |-> 0, level |-> <<>>]
 
-Init == cache = Nil /\ inited = FALSE /\ nops = 0 /\ hist = <<>>
+Init == cache = Nil /\ inited = FALSE /\ nops = 0 /\ hist = <<>> /\ src = Leaves(N) /\ gen = 0
 
 Out(op) == Export => PrintT(<<"TRANS", ToJson(Append(hist, op))>>)
 
 DoInit(n) ==
   /\ ~inited /\ inited' = TRUE
   /\ cache' = CInit(Src, n)
-  /\ Out([op |-> "init", a |-> n]) /\ hist' = Append(hist, [op |-> "init", a |-> n])
+  /\ Out([op |-> "init", a |-> n, chg |-> FALSE]) /\ hist' = Append(hist, [op |-> "init", a |-> n, chg |-> FALSE])
+  /\ UNCHANGED <<src, gen>>
 DoExt(len) ==
   /\ inited /\ UNCHANGED inited
   /\ cache' = CExtendTo(cache, Src, len)
-  /\ Out([op |-> "ext", a |-> len]) /\ hist' = Append(hist, [op |-> "ext", a |-> len])
-DoTrunc(n) ==
+  /\ Out([op |-> "ext", a |-> len, chg |-> FALSE]) /\ hist' = Append(hist, [op |-> "ext", a |-> len, chg |-> FALSE])
+  /\ UNCHANGED <<src, gen>>
+DoTrunc(n, chg) ==
   /\ inited /\ UNCHANGED inited
   /\ cache' = CTruncate(cache, n)
-  /\ Out([op |-> "trunc", a |-> n]) /\ hist' = Append(hist, [op |-> "trunc", a |-> n])
+  /\ IF chg THEN /\ gen < MaxGen /\ gen' = gen + 1
+                 /\ src' = [k \in 1..N |-> IF k <= n THEN src[k] ELSE Leaf(k + 100 * (gen + 1))]
+            ELSE UNCHANGED <<src, gen>>
+  /\ Out([op |-> "trunc", a |-> n, chg |-> chg]) /\ hist' = Append(hist, [op |-> "trunc", a |-> n, chg |-> chg])
 
 Next == /\ nops < MaxOps /\ nops' = nops + 1
-        /\ \E n \in 1..N : DoInit(n) \/ DoExt(n) \/ DoTrunc(n)
+        /\ \E n \in 1..N : DoInit(n) \/ DoExt(n) \/ DoTrunc(n, FALSE) \/ DoTrunc(n, TRUE)
 Spec == Init /\ [][Next]_vars
 
 BoolSet == {TRUE, FALSE}
